@@ -34,6 +34,7 @@ from __future__ import annotations
 from functools import cache
 from typing import Tuple, Dict, Iterable
 from copy import deepcopy, copy
+import math
 import numpy
 import numpy as np
 import pandas
@@ -43,6 +44,11 @@ from pyplate.slicer import Slicer
 from . import Config
 
 config = Config()
+
+
+def _exceeds(value: float, limit: float) -> bool:
+    """ True if value is larger than limit by more than floating point noise. """
+    return value > limit and not math.isclose(value, limit, rel_tol=1e-12, abs_tol=10 ** -config.internal_precision)
 
 
 class Unit:
@@ -757,7 +763,7 @@ class Container:
             amount_to_add = Unit.convert(source, quantity, 'U')
         else:
             amount_to_add = Unit.convert(source, quantity, config.moles_storage_unit)
-        if self.volume + volume_to_add > self.max_volume:
+        if _exceeds(self.volume + volume_to_add, self.max_volume):
             raise ValueError("Exceeded maximum volume")
         self.volume = round(self.volume + volume_to_add, config.internal_precision)
         self.contents[source] = round(self.contents.get(source, 0) + amount_to_add, config.internal_precision)
@@ -835,7 +841,7 @@ class Container:
             unit = 'U' if substance.is_enzyme() else config.moles_storage_unit
             to.volume += Unit.convert(substance, f"{amount} {unit}", config.volume_storage_unit)
         to.volume = round(to.volume, config.internal_precision)
-        if to.volume > to.max_volume:
+        if _exceeds(to.volume, to.max_volume):
             raise ValueError(f"Exceeded maximum volume in {to.name}.")
         source_container.volume = 0
         for substance, amount in source_container.contents.items():
@@ -1407,7 +1413,7 @@ class Container:
         required_umoles = Unit.convert_from_storage(self.contents[solute], 'umol') / new_ratio - current_umoles
         new_volume = self.volume + Unit.convert(solvent, f"{required_umoles} umol", config.volume_storage_unit)
 
-        if new_volume > self.max_volume:
+        if _exceeds(new_volume, self.max_volume):
             raise ValueError("Dilute solution will not fit in container.")
 
         if name:
